@@ -75,6 +75,10 @@ def val_eq(model_v, eng_v):
     if isinstance(model_v, bool) or isinstance(eng_v, bool):
         return isinstance(model_v, bool) and isinstance(eng_v, (bool,)) and model_v == bool(eng_v) or (
             isinstance(eng_v, (int, float)) and not isinstance(eng_v, bool) and False)
+    if isinstance(model_v, float):
+        if not isinstance(eng_v, (int, float)) or isinstance(eng_v, bool):
+            return False
+        return abs(model_v - eng_v) <= 1e-9 * max(1.0, abs(model_v), abs(eng_v))
     if isinstance(model_v, (int, Fraction)):
         if not isinstance(eng_v, (int, float)):
             return False
@@ -108,6 +112,47 @@ def compare(case, model_ans, eng_out, result='DS_r'):
         if a[1] == 'domain':
             return 'skip:model-domain', eng_out
         return 'skip:model-' + a[1], eng_out
+    post = case.get('post')
+    if post:
+        # irrational function applied on top of the model's exact operand values
+        def fn(x):
+            x = float(x)
+            if post[0] == 'sqrt':
+                return math.sqrt(x) if x >= 0 else 'ERR'
+            if post[0] == 'exp':
+                return math.exp(x) if x < 700 else 'SKIP'
+            if post[0] == 'ln':
+                return math.log(x) if x > 0 else 'ERR'
+            if post[0] == 'log':
+                return math.log(x) / math.log(post[1]) if x > 0 else 'ERR'
+            if post[0] == 'powf':
+                if x < 0 or (x == 0 and post[1] < 0):
+                    return 'SKIP'
+                return x ** post[1]
+            return 'SKIP'
+        _, ids_, meas_, mrows_ = a
+        nid = len(ids_)
+        newrows, err, skip = [], False, False
+        for r_ in mrows_:
+            vals = []
+            for v_ in r_[nid:]:
+                if v_ is None:
+                    vals.append(None)
+                    continue
+                y = fn(v_)
+                if y == 'ERR':
+                    err = True
+                elif y == 'SKIP':
+                    skip = True
+                vals.append(y)
+            newrows.append(tuple(r_[:nid]) + tuple(vals))
+        if skip:
+            return 'skip:float-domain', None
+        if err:
+            if eng_out[0] in ('vtl', 'raw'):
+                return 'agree', 'domain-error'
+            return 'DISAGREE:no-error-for-undefined-operation', eng_out
+        a = ('ok', ids_, meas_, newrows)
     if eng_out[0] != 'ok':
         return 'DISAGREE:engine-error', eng_out
     if result not in eng_out[1]:
